@@ -166,6 +166,57 @@ def run(ctx):
                                   f"(protection is inverted)", how="`measure < / <= bound` (or `not helper`) leads to return False",
                           where=where(prune, t.ast))
     ctx.floor("R16.1", "protective_pairs", n_pairs, 10, exact=True)
+    # what is measured against the bound: start-up trials are COMPLETE trials of the study (a FAIL or
+    # PRUNED trial contributes nothing to the percentile the pruner compares with), warm-up is measured
+    # on the trial's latest reported step
+    MEASURES = {
+        (PR + "_percentile.PercentilePruner", "_n_startup_trials"): "complete-count",
+        (PR + "_percentile.PercentilePruner", "_n_warmup_steps"): "last-step",
+        (PR + "_threshold.ThresholdPruner", "_n_warmup_steps"): "last-step",
+    }
+
+    def complete_only(x, defs, depth=0):
+        """expression is the list of COMPLETE trials of the study"""
+        x = resolve(x, defs)
+        if isinstance(x, ast.Call) and isinstance(x.func, ast.Attribute) and x.func.attr in ("get_trials", "_get_trials"):
+            stv = kwarg(x, "states", 1)
+            els = list(stv.elts) if isinstance(stv, (ast.Tuple, ast.List, ast.Set)) else []
+            return bool(els) and all(norm(v).endswith("TrialState.COMPLETE") for v in els)
+        if isinstance(x, ast.ListComp) and len(x.generators) == 1:
+            gen = x.generators[0]
+            conds = [cmp_atom(i) for i in gen.ifs]
+            return any(a is not None and a[0].endswith(".state") and a[1] in (ast.Eq, ast.Is) and a[2].endswith("TrialState.COMPLETE") for a in conds) \
+                or complete_only(gen.iter, defs, depth + 1)
+        return False
+    for (q, fld), kind in sorted(MEASURES.items()):
+        cls = p.cls(q)
+        prune = cls.methods["prune"]
+        g = CFG(prune.node, name=prune.qualname)
+        defs = single_defs(prune.node)
+        _pe, gates = gate_edges(g, defs, fld, method_lookup(p, cls))
+        n_meas = 0
+        for t, pk, e in gates:
+            for x in ast.walk(t.expr):
+                if not (isinstance(x, ast.Compare) and len(x.ops) == 1):
+                    continue
+                sides = [x.left, x.comparators[0]]
+                if not any(f"self.{fld}" in norm(resolve(sd, defs)) for sd in sides):
+                    continue
+                meas = [sd for sd in sides if f"self.{fld}" not in norm(resolve(sd, defs))]
+                if len(meas) != 1:
+                    continue
+                n_meas += 1
+                m = resolve(meas[0], defs, depth=4)
+                if kind == "complete-count":
+                    ok = isinstance(m, ast.Call) and dotted(m.func) == "len" and m.args and complete_only(m.args[0], defs)
+                    msg = (f"{cls.name}.prune compares `{norm(m)[:70]}` with n_startup_trials: the start-up count is not the number of COMPLETE trials "
+                           f"(FAIL/PRUNED/RUNNING trials would end the start-up phase although no completed trial backs the percentile)")
+                else:
+                    ok = norm(m) in ("trial.last_step",)
+                    msg = f"{cls.name}.prune compares `{norm(m)[:70]}` with n_warmup_steps, not the trial's latest reported step"
+                ctx.check(ok, "R16.2", prune.short, f"gate-measure:{fld}", message=msg,
+                          how="len(<COMPLETE trials of the study>)" if kind == "complete-count" else "trial.last_step", where=where(prune, t.ast))
+        ctx.require(n_meas > 0, f"R16.2: no comparison against self.{fld} found in {cls.name}.prune gates")
     # subclasses that only forward constructor arguments
     for q, baseq in INHERITING.items():
         cls, base = p.cls(q), p.cls(baseq)
